@@ -77,6 +77,12 @@ class Ctx:
         self.view_info = view_info
         self.memo = {}
 
+    @property
+    def side_goals(self):
+        if not hasattr(self, "_side_goals"):
+            self._side_goals = []
+        return self._side_goals
+
     def name(self, l):
         """unique name of a local: its source name, disambiguated by the local's index when another
         local of the body carries the same source name (shadowing: `let key = if .. { &h } else { key }`)"""
@@ -352,6 +358,14 @@ class Ctx:
                     vs = lin_vars(inner)
                     if all(isinstance(v, tuple) and v[0] == "len" and 0 < inner[v] <= 1 for v in vs) and \
                             sum(inner[v] for v in vs) <= 1 and inner.get(1, 0) <= 0:
+                        return inner
+                    # a bare unsigned parameter: unchanged provided it fits, which becomes an obligation
+                    # of its own (lifted to the call sites like any other precondition)
+                    if len(vs) == 1 and isinstance(vs[0], tuple) and vs[0][0] == "local" and inner[vs[0]] == 1 and inner.get(1, 0) == 0 and \
+                            e.a.k == "local" and 1 <= e.a.a <= fn.argc:
+                        g_ = ge(lin_const((1 << 63) - 1), inner)
+                        if repr(g_) not in {repr(x) for x, _ in self.side_goals}:
+                            self.side_goals.append((g_, "`%s as %s` does not change the value" % (vs[0][1], e.b)))
                         return inner
                 return lin_var(("expr", deep_repr(e)))     # value-changing (truncating) cast
             return self.lin(e.a, depth + 1)
